@@ -1,7 +1,7 @@
 // Package c07: the script served at /c yields a working, correctly addressed
 // shell.
 //
-// Five engines, all against hsrv.Server in-process on real TLS listeners:
+// Seven engines, all against hsrv.Server in-process on real TLS listeners:
 //
 //	precedence  raw requests over all 2^4 presence combinations of c2
 //	            parameter / c2 header / Host / SNI, judged by a reference
@@ -16,6 +16,9 @@
 //	            file, one request after each step; the configured path is a
 //	            plain file, a symbolic link, or passes through a symlinked
 //	            directory (template.go)
+//	hostcurl    the one-liner run on hosts whose curl is configured differently
+//	            (.curlrc: TLS version limits, one curve, one cipher suite, HTTP
+//	            version …), tlsclient: restricted Go TLS clients (hostcurl.go)
 //	carry       large custom templates, clients that go away in the middle of
 //	            their script and templates that fail half-way, mixed with
 //	            well-behaved clients whose every script must be the rendering
@@ -1182,7 +1185,7 @@ func (c *ctx) templateEngine() {
 // ---- entry -----------------------------------------------------------------------
 
 func Run(r *mon.Run) {
-	r.Rule = "hsrv.Server in-process on real TLS. precedence: raw requests over all 16 presence classes of c2 parameter (query, form body, both) / c2 header / Host (header, HTTP/1.0, absolute-form target carrying raw UTF-8) / SNI, with empty values, URL-encoded values, decoy names; each 200 body is parsed into its two curl commands which must agree in pin, authority and ID, the pin must equal base64(sha256(SPKI)) of the leaf presented in that handshake, the authority must equal the reference function written from the statement (IDNA answers from a fixed table), a 'Sent script' notice must carry the same ID/URL; no source at all => status >= 400 and empty body. LISTEN PORTS of the precedence engine: OS-chosen on 127.0.0.1 and [::1], 443 itself, and ports drawn by the PRNG from classes defined by their decimal relation to 443 - ends443 (1443 … 65443), ends43or3 (ends in 43 but not 443, or in 3 but not 43), starts443 (4430-4439, 44300-44399), contains443 (x443y), near443 (442, 444, 44, 43, 4, 3; needs privilege) - per class 2 (thorough 6) listeners alternating 127.0.0.1 / [::1], a port that cannot be bound is skipped for the next candidate of its class (up to 24), per listener 32 (64) requests of which every other one carries nothing but SNI (expected authority: SNI:port for every port but 443) and the rest go round the 16 presence classes; the ports actually used are in coverage.listen_addresses_by_port_class. ids: every ID seen by any engine goes into one set (charset [0-9a-z], no repeat). exec: scripts addressed to the real listener are run by /bin/sh with real curl in their own process group; Input/Output connected with that ID, ready notice, 'echo RT-n-$((6*7))' answered with RT-n-42, exit. template: the configured path is <work>/tmpl-n/current/callback.tmpl in one of four layouts (sequence n: layout (n/2)%4, stealth = same size and mtime for every version if n is odd): plain (directory + regular file), link (callback.tmpl is a symbolic link to a file in store/), dirlink (current is a symbolic link to releases/N), dirlink+link (both); links are relative or absolute and are re-pointed by rename-over or by remove+create (PRNG). Histories of {write A, write B, rename-in, unparsable, failing at execution, empty, delete, directory, no-op} on what the path leads to, plus on a link layout {relink to a new file, relink to an earlier file, remove the link's target, relink to nothing; delete = remove the link, write = edit the link's target in place} and on a dirlink layout {swap current to a new release, to an earlier release, to a release without template, remove current}; the first 10-12 steps of a symlinked sequence are a fixed tour through every kind of link change, the rest is drawn from the PRNG; the link exists and resolves when the server starts; one request after every step, the response must reflect what the configured path leads to as of that request (valid => 200 rendered from the current content; missing/dangling/unparsable/failing => status >= 400 and empty body); a model of the path is kept by the harness and compared with os.ReadFile through the configured path before every verdict. carry (carry.go; nothing of one request's script may reach another request, in particular not through a request that failed): the configured template is a shell script of 1 KiB, 6 KiB, 24 KiB, 96 KiB, 384 KiB, 1.5 MiB or 8 MiB (sequence n: size class (n/4)%7, actual size 75-100% of it; 8-600 comment lines each carrying {{.ID}} and {{.URL}}, the two curl commands of the default template after the first line, in the middle or at the end), so that every rendering names its request on every line; every request of a sequence has its own callback address (c2 parameter, c2 header or Host in turn). Well-behaved clients (fresh connection or a persistent one, Content-Length and chunked answers) are mixed on the same server with clients that ask for the script and go away: TCP reset (linger 0) without reading, after 1 byte, after a part (1 byte … half the script / 256 KiB); TLS close after 1 byte or a part; the socket closed under TLS after a part; one in five on a connection that has served a complete script before; these clients announce a receive buffer of 32-256 KiB and a segment size of 1400 or 536 bytes (or the defaults) before connecting, as a remote client does, so that the server is still sending a large script when they leave (counted as carry_aborts_mid_write: the handler's 'Sent script' notice is not among the operator lines before a marker sent when the client has read its part, and appears after it left). Sequential sequences ((n/2) even): a fixed tour, then PRNG-drawn disturbances {one or two leaving clients, the template rewritten (new version, new size, new layout; half the time followed by a leaving client), the template replaced by one that emits up to 1 MiB of output and then fails at execution - unknown field, index/slice out of range, missing sub-template, len/call of a wrong type - requested once or twice (status >= 400 and an empty body) and replaced by a valid one again}, each followed by one or two well-behaved requests or three at once. Concurrent sequences ((n/2) odd): two well-behaved clients (one persistent connection) and two leaving clients at the same time, then three more requests. Half of the sequences (n even) run in a child process with runtime.GOMAXPROCS(1), one at a time; the other half in a child process with all processors, three servers at a time (both beside the other engines). EVERY completely received 200 answer (HTTP framing complete) is compared byte for byte with the reference rendering for its own request - the pieces of the template text the file held at the time of the request with the ID found after the first '/i/', the request's callback address and the pin of the key presented in that handshake substituted by the harness itself (no template library) - so it starts with the template's first bytes, has exactly the reference's length and carries one ID; the ID goes into the run's set (no repeat, safe characters); a differing body is searched for the IDs and callback addresses it carries (those of clients that went away are remembered) and for its own rendering as a suffix. What a leaving client read is only used thus: if the first complete 'id=… url=…' it contains names another request's callback address, that is the same violation. distinct = distinct raw requests (precedence, per listen port for the port classes), executed script IDs, template transitions per layout and histories, carry (size class, mode, processors, connection kind, preceding disturbance, framing) and leaving-client shapes"
+	r.Rule = "hsrv.Server in-process on real TLS. precedence: raw requests over all 16 presence classes of c2 parameter (query, form body, both) / c2 header / Host (header, HTTP/1.0, absolute-form target carrying raw UTF-8) / SNI, with empty values, URL-encoded values, decoy names; each 200 body is parsed into its two curl commands which must agree in pin, authority and ID, the pin must equal base64(sha256(SPKI)) of the leaf presented in that handshake, the authority must equal the reference function written from the statement (IDNA answers from a fixed table), a 'Sent script' notice must carry the same ID/URL; no source at all => status >= 400 and empty body. LISTEN PORTS of the precedence engine: OS-chosen on 127.0.0.1 and [::1], 443 itself, and ports drawn by the PRNG from classes defined by their decimal relation to 443 - ends443 (1443 … 65443), ends43or3 (ends in 43 but not 443, or in 3 but not 43), starts443 (4430-4439, 44300-44399), contains443 (x443y), near443 (442, 444, 44, 43, 4, 3; needs privilege) - per class 2 (thorough 6) listeners alternating 127.0.0.1 / [::1], a port that cannot be bound is skipped for the next candidate of its class (up to 24), per listener 32 (64) requests of which every other one carries nothing but SNI (expected authority: SNI:port for every port but 443) and the rest go round the 16 presence classes; the ports actually used are in coverage.listen_addresses_by_port_class. ids: every ID seen by any engine goes into one set (charset [0-9a-z], no repeat). exec: scripts addressed to the real listener are run by /bin/sh with real curl in their own process group; Input/Output connected with that ID, ready notice, 'echo RT-n-$((6*7))' answered with RT-n-42, exit. template: the configured path is <work>/tmpl-n/current/callback.tmpl in one of four layouts (sequence n: layout (n/2)%4, stealth = same size and mtime for every version if n is odd): plain (directory + regular file), link (callback.tmpl is a symbolic link to a file in store/), dirlink (current is a symbolic link to releases/N), dirlink+link (both); links are relative or absolute and are re-pointed by rename-over or by remove+create (PRNG). Histories of {write A, write B, rename-in, unparsable, failing at execution, empty, delete, directory, no-op} on what the path leads to, plus on a link layout {relink to a new file, relink to an earlier file, remove the link's target, relink to nothing; delete = remove the link, write = edit the link's target in place} and on a dirlink layout {swap current to a new release, to an earlier release, to a release without template, remove current}; the first 10-12 steps of a symlinked sequence are a fixed tour through every kind of link change, the rest is drawn from the PRNG; the link exists and resolves when the server starts; one request after every step, the response must reflect what the configured path leads to as of that request (valid => 200 rendered from the current content; missing/dangling/unparsable/failing => status >= 400 and empty body); a model of the path is kept by the harness and compared with os.ReadFile through the configured path before every verdict. carry (carry.go; nothing of one request's script may reach another request, in particular not through a request that failed): the configured template is a shell script of 1 KiB, 6 KiB, 24 KiB, 96 KiB, 384 KiB, 1.5 MiB or 8 MiB (sequence n: size class (n/4)%7, actual size 75-100% of it; 8-600 comment lines each carrying {{.ID}} and {{.URL}}, the two curl commands of the default template after the first line, in the middle or at the end), so that every rendering names its request on every line; every request of a sequence has its own callback address (c2 parameter, c2 header or Host in turn). Well-behaved clients (fresh connection or a persistent one, Content-Length and chunked answers) are mixed on the same server with clients that ask for the script and go away: TCP reset (linger 0) without reading, after 1 byte, after a part (1 byte … half the script / 256 KiB); TLS close after 1 byte or a part; the socket closed under TLS after a part; one in five on a connection that has served a complete script before; these clients announce a receive buffer of 32-256 KiB and a segment size of 1400 or 536 bytes (or the defaults) before connecting, as a remote client does, so that the server is still sending a large script when they leave (counted as carry_aborts_mid_write: the handler's 'Sent script' notice is not among the operator lines before a marker sent when the client has read its part, and appears after it left). Sequential sequences ((n/2) even): a fixed tour, then PRNG-drawn disturbances {one or two leaving clients, the template rewritten (new version, new size, new layout; half the time followed by a leaving client), the template replaced by one that emits up to 1 MiB of output and then fails at execution - unknown field, index/slice out of range, missing sub-template, len/call of a wrong type - requested once or twice (status >= 400 and an empty body) and replaced by a valid one again}, each followed by one or two well-behaved requests or three at once. Concurrent sequences ((n/2) odd): two well-behaved clients (one persistent connection) and two leaving clients at the same time, then three more requests. Half of the sequences (n even) run in a child process with runtime.GOMAXPROCS(1), one at a time; the other half in a child process with all processors, three servers at a time (both beside the other engines). EVERY completely received 200 answer (HTTP framing complete) is compared byte for byte with the reference rendering for its own request - the pieces of the template text the file held at the time of the request with the ID found after the first '/i/', the request's callback address and the pin of the key presented in that handshake substituted by the harness itself (no template library) - so it starts with the template's first bytes, has exactly the reference's length and carries one ID; the ID goes into the run's set (no repeat, safe characters); a differing body is searched for the IDs and callback addresses it carries (those of clients that went away are remembered) and for its own rendering as a suffix. What a leaving client read is only used thus: if the first complete 'id=… url=…' it contains names another request's callback address, that is the same violation. distinct = distinct raw requests (precedence, per listen port for the port classes), executed script IDs, template transitions per layout and histories, carry (size class, mode, processors, connection kind, preceding disturbance, framing) and leaving-client shapes. THE HOST'S CURL (hostcurl.go). hostcurl: the documented one-liner 'curl -sk --pinnedpubkey sha256//PIN https://ADDR/c | /bin/sh' (PIN computed by the harness from the certificate the listener presents to an unrestricted client, ADDR the listen address on 127.0.0.1 or [::1]) is run by /bin/sh in its own process group on a 'host' whose curl is configured through a private .curlrc, found through $HOME or through $CURL_HOME in turn and read by all three curl processes of the pipeline (the fetch and the script's two callback commands): nothing (control); tls-max = 1.2; tlsv1.2 + tls-max = 1.2; tlsv1.3; curves = prime256v1 | secp384r1 | secp521r1 | X25519; tls-max = 1.2 with ciphers = one of ECDHE-ECDSA-AES128-GCM-SHA256 | ECDHE-ECDSA-AES256-GCM-SHA384 | ECDHE-ECDSA-CHACHA20-POLY1305 (the suites for an ECDSA key that Go serves by default; skipped if the served key is not ECDSA); tlsv1.3 with tls13-ciphers = TLS_AES_256_GCM_SHA384 | TLS_CHACHA20_POLY1305_SHA256; http1.1; http1.0; no-keepalive; noproxy = *; plus 6 (thorough 24) combinations of one TLS restriction with one HTTP/connection option drawn from the PRNG. Every profile is first tried with this machine's curl against a plain TLS listener of the harness's own (crypto/tls with nothing but a self-signed ECDSA P-256 certificate made by the harness, net/http handlers shaped like /c, /i, /o): the fetch (-sk), a download with -N and an upload with -T- from a pipe must all work there and the option must be seen in effect in the ClientHello / negotiated state / request line; a profile that fails any of this is NOT EXPLORED (coverage.hostcurl_profiles_not_explored; if only the fetch works there, as with http1.0 which cannot upload from a pipe, only the fetch of /c is explored and the printed script judged by the script oracle). Every usable profile gets 2 (thorough 8) runs: the server must send a script ('Sent script' notice, URL = ADDR, ID into the run's set), Input connected + Output connected with that ID and the ready notice must follow, 'echo HC-n-$((6*7))' must come back as HC-n-42, then exit. tlsclient: /c is fetched over connections of Go's TLS client restricted to MaxVersion TLS 1.2, MinVersion TLS 1.3, exactly TLS 1.2 with one of the three ECDHE-ECDSA AEAD suites, CurvePreferences of a single curve (P-256, P-384, P-521, X25519) with and without MaxVersion TLS 1.2 (restrictions that fail against the plain listener are not explored), against a listener on 127.0.0.1 and one on [::1], with a Host header or with nothing but SNI; a refused handshake is a violation (tls-client-refused:<restriction>), the script is judged as in the precedence engine (pin = key presented in that handshake, authority, notice)."
 	r.Assumptions = []string{
 		"the host information of a request with an absolute-form target is the target's authority (RFC 7230 5.4/5.5); Unicode hosts can only be sent this way because net/http rejects a non-ASCII Host header before any handler runs",
 		"an empty c2 value counts as not given; when one of query/body is 'c2=' and the other has a value, either reading is accepted (counted under ambiguous_param:*)",
@@ -1194,11 +1197,12 @@ func Run(r *mon.Run) {
 		"carry engine: the statement's 'for every request to /c the returned script …' is read as: every script is the rendering of the template as it is at that request with that request's own ID, address and pin and nothing else - whatever happened to earlier requests (client gone, template failing); only completely received answers are judged in full, a well-behaved client whose answer does not arrive completely within 90 s is inconclusive; a template that fails while being executed counts as the statement's 'unparsable' template (error status, no script), as in the template engine",
 		"carry engine: the leaving clients' small receive window and Ethernet segment size, the pauses of 0-30 ms before a reset without reading and the waits (at most 5 s, 150 ms after three misses) for the 'Sent script' notice of a client that left only shape the schedule (the next request comes when the previous handler has ended); no verdict depends on them; 'mid-write' is a coverage counter derived from the order of operator lines, floors on it make a run that never had a client leave during sending inconclusive",
 		"a port class none of whose candidates can be bound on a loopback address (no privilege for near443, every candidate taken) is reported as not explored (coverage.port_classes_not_explored, an added assumption line) and does not fail the run; at least one class must have been explored",
+		"hostcurl/tlsclient: 'a host with curl' is read as any host whose curl (and TLS library) can talk to an ordinary TLS server that presents the same kind of key: what the harness's own plain crypto/tls listener (default configuration, ECDSA P-256 certificate) serves to a given curl configuration or Go client restriction, the server's listener must serve too. A .curlrc stands for a curl/TLS library that is limited in that way (all curl processes of the pipeline read it). The address the one-liner is given is the listen address, so the script must call back to exactly that. Progress bounds (20 s per step, a fired bound re-run alone with 40 s) as in the exec engine; a pipeline that has ended is a definite outcome, not a fired bound",
 	}
 	c := newCtx(r)
 
 	var wg sync.WaitGroup
-	for _, f := range []func(){c.precedenceEngine, c.idsEngine, c.templateEngine, c.carryEngine} {
+	for _, f := range []func(){c.precedenceEngine, c.idsEngine, c.templateEngine, c.carryEngine, c.tlsclientEngine} {
 		wg.Add(1)
 		go func() { defer wg.Done(); f() }()
 	}
@@ -1206,6 +1210,8 @@ func Run(r *mon.Run) {
 	r.Logf("precedence/ids/template done; %d ids", len(c.ids))
 	// the exec engine runs by itself: its oracle is about progress
 	c.execEngine()
+	// so does the hostcurl engine (hostcurl.go)
+	c.hostcurlEngine()
 	r.Extra("distinct_ids", len(c.ids))
 
 	for _, cl := range []string{"p0h0o0s0", "p0h0o0s1", "p0h0o1s0", "p0h0o1s1", "p0h1o0s0", "p0h1o0s1", "p0h1o1s0", "p0h1o1s1", "p1h0o0s0", "p1h0o0s1", "p1h0o1s0", "p1h0o1s1", "p1h1o0s0", "p1h1o0s1", "p1h1o1s0", "p1h1o1s1"} {
@@ -1235,5 +1241,9 @@ func Run(r *mon.Run) {
 	r.Floor("template_errors_checked", int64(r.N(60, 480)))
 	templateFloors(r)
 	carryFloors(r)
+	if !r.Replaying() {
+		hostcurlFloors(r)
+		tlsclientFloors(r)
+	}
 	r.Floor("error_responses_checked", 40)
 }
